@@ -123,7 +123,14 @@ func (p proxy) SubscribeID(action uint32) (func(), chan []byte, error) {
 		obj := proxyObject{p}
 		_, err := obj.RegisterEvent(p.object, action, uint64(handler))
 		if err != nil {
-			// nothing was registered: the next subscriber is
+			if p.ctx.Err() != nil {
+				// a call given up by its context may have been
+				// sent, and is executed all the same: remove the
+				// registration it may have left behind.
+				bg := proxyObject{p.WithContext(context.Background())}
+				bg.UnregisterEvent(p.object, action, uint64(handler))
+			}
+			// nothing is registered: the next subscriber is
 			// the first one again.
 			p.client.State(key+".handler", -handler)
 			p.client.State(key, -1)
